@@ -79,11 +79,11 @@ pub open spec fn dflt<T: CellType>() -> T { choose|d: T| call_ensures(T::default
 impl<T: CellType> Range<T> {
     pub closed spec fn h(&self) -> int { self.end.0 - self.start.0 + 1 }
     pub closed spec fn w(&self) -> int { self.end.1 - self.start.1 + 1 }
-    /// representation invariant
     /// corners ordered component-wise and both spans representable in u32 (so that width()/height() do not overflow)
     pub closed spec fn spans_ok(&self) -> bool {
         self.start.0 <= self.end.0 && self.start.1 <= self.end.1 && self.h() <= u32::MAX && self.w() <= u32::MAX
     }
+    /// representation invariant
     pub closed spec fn wf(&self) -> bool {
         self.spans_ok() && (self.inner@.len() == 0 || self.inner@.len() == self.h() * self.w())
     }
@@ -158,6 +158,19 @@ proof fn lemma_idx_inj(i: int, j: int, i2: int, j2: int, w: int)
 /// relative cell (i, j) of a w-wide row-major buffer
 pub open spec fn ix(i: int, j: int, w: int) -> int { i * w + j }
 
+proof fn lemma_mul_ge1(a: int, b: int)
+    requires a >= 1, b >= 1,
+    ensures a * b >= 1,
+{
+    assert(a * b >= 1) by (nonlinear_arith) requires a >= 1, b >= 1;
+}
+proof fn lemma_mul_mono(a: int, b: int, w: int)
+    requires a <= b, w >= 0,
+    ensures a * w <= b * w, 0 * w == 0, 1 * w == w,
+{
+    assert(a * w <= b * w) by (nonlinear_arith) requires a <= b, w >= 0;
+}
+
 proof fn lemma_mul_u32(a: int, b: int)
     requires 0 <= a <= 0xffff_ffff, 0 <= b <= 0xffff_ffff,
     ensures 0 <= a * b <= 0xffff_ffff * 0xffff_ffff, a * b <= usize::MAX,
@@ -189,7 +202,7 @@ proof fn lemma_idx(i: int, j: int, h: int, w: int)
 //@@ body
         proof {
             let hh = end.0 - start.0 + 1; let ww = end.1 - start.1 + 1;
-            assert(hh * ww >= 1) by (nonlinear_arith) requires hh >= 1, ww >= 1;
+            lemma_mul_ge1(hh, ww);
             assert forall|i: int, j: int| 0 <= i < hh && 0 <= j < ww implies 0 <= #[trigger] (i * ww + j) < hh * ww by { lemma_idx(i, j, hh, ww); }
         }
 //@@ end
@@ -313,7 +326,7 @@ proof fn lemma_idx(i: int, j: int, h: int, w: int)
                     by {
                         lemma_idx(i, j, h1, w1);
                         if i < h0 { lemma_idx(i, j, h0, w0); } else {
-                            assert(i * w0 >= h0 * w0) by (nonlinear_arith) requires i >= h0, w0 >= 0;
+                            lemma_mul_mono(h0, i, w0);
                         }
                     }
                 } }
@@ -326,7 +339,7 @@ proof fn lemma_idx(i: int, j: int, h: int, w: int)
 //@@ before /for sce in /
                 proof {
                     assert(self.inner@.skip(0) =~= self.inner@);
-                    if ne { assert(h0 * w0 >= 1) by (nonlinear_arith) requires h0 >= 1, w0 >= 1; }
+                    if ne { lemma_mul_ge1(h0, w0); }
                 }
 //@@ r6 0
 //@@ loop 0
@@ -348,13 +361,13 @@ proof fn lemma_idx(i: int, j: int, h: int, w: int)
                         let rem = o.inner@.skip(k * w0);
                         assert(rem.len() == h0 * w0 - k * w0);
                         assert(h0 * w0 - k * w0 == (h0 - k) * w0) by (nonlinear_arith);
-                        if k >= h0 { assert((h0 - k) * w0 <= 0) by (nonlinear_arith) requires h0 - k <= 0, w0 >= 0; }
+                        if k >= h0 { lemma_mul_mono(h0 - k, 0, w0); }
                         assert(k < h0);
-                        assert((h0 - k) * w0 >= w0) by (nonlinear_arith) requires h0 - k >= 1, w0 >= 0;
+                        lemma_mul_mono(1, h0 - k, w0);
                         assert(sce@ == rem.take(w0));
                         assert((k + 1) * w0 == k * w0 + w0) by (nonlinear_arith);
                         assert((k + 1) * w1 == k * w1 + w1) by (nonlinear_arith);
-                        assert((k + 1) * w0 <= h0 * w0) by (nonlinear_arith) requires k + 1 <= h0, w0 >= 0;
+                        lemma_mul_mono(k + 1, h0, w0);
                         assert(rem.skip(w0) =~= o.inner@.skip((k + 1) * w0));
                         lemma_mul_u32(k + 1, w1);
                     } }
@@ -381,7 +394,7 @@ proof fn lemma_idx(i: int, j: int, h: int, w: int)
                         }
                         if k + 1 < h0 {
                             assert(h0 * w0 - (k + 1) * w0 == (h0 - (k + 1)) * w0) by (nonlinear_arith);
-                            assert((h0 - (k + 1)) * w0 >= 1) by (nonlinear_arith) requires h0 - (k + 1) >= 1, w0 >= 1;
+                            lemma_mul_ge1(h0 - (k + 1), w0);
                         }
                         k = k + 1;
                     } }
@@ -403,7 +416,7 @@ proof fn lemma_idx(i: int, j: int, h: int, w: int)
                             lemma_idx(i, j, h0, w1);
                             assert(data@[ix(i, j, w1)] == d1[ix(i, j, w1)]);
                         } else {
-                            assert(i * w1 >= h0 * w1) by (nonlinear_arith) requires i >= h0, w1 >= 0;
+                            lemma_mul_mono(h0, i, w1);
                         }
                     }
                 } }
@@ -437,7 +450,7 @@ proof fn lemma_idx(i: int, j: int, h: int, w: int)
             }
         } }
 //@@ end
-//@@ fn src/lib.rs Range::range props=C05,C08,C17 ret=r external_body by=range_window_2x2,range_window_1x2,range_window_2x1,range_window_1x1
+//@@ fn src/lib.rs Range::range props=C05,C08,C17 ret=r external_body by=range_window_2x2_sel,range_window_1x1,range_window_1x2,range_window_2x1,range_window_2x2
 //@@ sig
     // ASSUMED in Verus (body: chunks().take().skip().zip(chunks_mut()...) + clone_from_slice, outside vstd); checked bounded by Kani.
     requires
@@ -503,9 +516,9 @@ proof fn lemma_idx(i: int, j: int, h: int, w: int)
             }
 //@@ before /let len = /
             proof {
-                assert(rows * cols <= 0xffff_ffff * 0xffff_ffff) by (nonlinear_arith) requires 0 <= rows <= 0xffff_ffff, 0 <= cols <= 0xffff_ffff;
+                lemma_mul_u32(rows as int, cols as int);
                 assert(cols * rows == rows * cols) by (nonlinear_arith);
-                assert(rows * cols >= 1) by (nonlinear_arith) requires rows >= 1, cols >= 1;
+                lemma_mul_ge1(rows as int, cols as int);
             }
 //@@ after /v\.shrink_to_fit\(\);/
             proof {
